@@ -99,9 +99,21 @@ def _remove_unused_nodes_in_graph_like(function_or_graph: ir.Function | ir.Graph
             function_or_graph.remove(node, safe=True)
             count += 1
         else:
+            signature = (
+                len(node.inputs),
+                tuple(output.name for output in node.outputs),
+                len(node.attributes),
+            )
             _remove_trailing_empty_inputs(node)
             if onnx_opset_version is not None:
                 _remove_unused_optional_outputs(node, graph_outputs, onnx_opset_version)
+            if signature != (
+                len(node.inputs),
+                tuple(output.name for output in node.outputs),
+                len(node.attributes),
+            ):
+                # Trailing inputs / unused optional outputs of a kept node were removed
+                count += 1
             for attr in node.attributes.values():
                 if attr.type == ir.AttributeType.GRAPH:
                     count += _remove_unused_nodes_in_graph_like(attr.as_graph())
